@@ -300,6 +300,9 @@ def recover_and_rest(R, env, prog, sites):
         if op["kind"] == "w" and ns_of(prog, op["args"][0]) == "batches":
             n += 1
             vals = [s[3] for s in subterms(op["args"][-1]) if s[0] == "upd" and s[2] == ("received_native_unstaked",)]
+            if not vals:
+                # struct-update syntax / update closure: the same field of the value written
+                vals = [d_[("received_native_unstaked",)] for b_, d_ in shared.write_value_alternatives(prog, op, "batches") or [] if ("received_native_unstaked",) in d_]
             good = len(vals) == 1 and vals[0][0] == "agg" and vals[0][2] == "Some" and is_reward(prog, vals[0][3][0][2])
             R.ob("C02.R5", "ReceiveUnstakedTokens:received-amount", good, "received_native_unstaked := %s; expected Some(amount of the ibc-denom coin in info.funds)" % [fmt(v)[:120] for v in vals], loc=op["loc"], fn=hk)
     R.floor("C02.R5", "BATCHES writes in ReceiveUnstakedTokens", n, 1)
